@@ -108,7 +108,69 @@ def _iso_time_tokens(interp, h, mi, s, us, tz):
     return toks
 
 
-class SymDate(Model):
+def _lex_lt(a, b):
+    """a < b lexicographically over equally long tuples of int / z3 terms: a z3 Bool."""
+    a0, b0 = _t(a[0]), _t(b[0])
+    if len(a) == 1:
+        return a0 < b0
+    return z3.Or(a0 < b0, z3.And(a0 == b0, _lex_lt(a[1:], b[1:])))
+
+
+def _lex_eq(a, b):
+    return z3.And(*[_t(x) == _t(y) for x, y in zip(a, b)])
+
+
+def _other_fields(self, other):
+    """The comparable fields of `other` (a model or a real stdlib object of the same kind, same zone)."""
+    if isinstance(other, Model):
+        of, otz = other.fields(), getattr(other, 'tzinfo', None)
+        if type(other) is not type(self):
+            raise TypeError("can't compare %s to %s" % (self.pytype.__name__, other.pytype.__name__))
+    elif isinstance(other, _dt.datetime):
+        if not isinstance(self, SymDateTime):
+            raise TypeError("can't compare %s to datetime" % self.pytype.__name__)
+        of, otz = (other.year, other.month, other.day, other.hour, other.minute, other.second, other.microsecond), other.tzinfo
+    elif isinstance(other, _dt.date):
+        if type(self) is not SymDate:
+            raise TypeError("can't compare datetime.datetime to datetime.date")
+        of, otz = (other.year, other.month, other.day), None
+    elif isinstance(other, _dt.time):
+        if not isinstance(self, SymTime):
+            raise TypeError("can't compare")
+        of, otz = (other.hour, other.minute, other.second, other.microsecond), other.tzinfo
+    else:
+        return None
+    stz = getattr(self, 'tzinfo', None)
+    if (stz is None) != (otz is None):
+        raise TypeError("can't compare offset-naive and offset-aware %ss" % self.pytype.__name__)
+    if stz is not None:
+        a, b = tz_minutes(stz), tz_minutes(otz)
+        if isinstance(a, Sym) or isinstance(b, Sym) or a != b:
+            raise Unsupported("ordering of %ss in different zones (calendar arithmetic is not modelled)" % self.pytype.__name__)
+    return of
+
+
+class _Ordered(object):
+    """Ordering of date/time models by their fields (same zone only): what CPython's comparison computes."""
+
+    def __lt__(self, other):
+        of = _other_fields(self, other)
+        return NotImplemented if of is None else SBool(_lex_lt(self.fields(), of))
+
+    def __gt__(self, other):
+        of = _other_fields(self, other)
+        return NotImplemented if of is None else SBool(_lex_lt(of, self.fields()))
+
+    def __le__(self, other):
+        of = _other_fields(self, other)
+        return NotImplemented if of is None else SBool(z3.Not(_lex_lt(of, self.fields())))
+
+    def __ge__(self, other):
+        of = _other_fields(self, other)
+        return NotImplemented if of is None else SBool(z3.Not(_lex_lt(self.fields(), of)))
+
+
+class SymDate(_Ordered, Model):
     pytype = _dt.date
 
     def __init__(self, year, month, day):
@@ -121,7 +183,7 @@ class SymDate(Model):
         return (self.year, self.month, self.day)
 
 
-class SymTime(Model):
+class SymTime(_Ordered, Model):
     pytype = _dt.time
 
     def __init__(self, hour=0, minute=0, second=0, microsecond=0, tzinfo=None):
